@@ -35,7 +35,18 @@ MODES = ("identity", "custom", "inverse_sample_covariance", "inverse_unbiased_co
 # ----------------------------------------------------------------------------- generators
 def sym_weights(g, S, m, kind="psd", bits=4):
     out = []
-    for _ in range(S):
+    for j in range(S):
+        if kind == "sparse":
+            # symmetric, at most m non-zero entries, NOT diagonal (zero diagonal / a single off-diagonal pair / mixed)
+            w = np.zeros((m, m))
+            if j % 3 == 0 or m == 2:
+                w[0, 1] = w[1, 0] = 1.0 + j
+            elif j % 3 == 1:
+                w[0, 0] = 1.0; w[0, 1] = w[1, 0] = 0.5
+            else:
+                w[0, m - 1] = w[m - 1, 0] = -0.75; w[1, 1] = 2.0 if m > 3 else 0.0
+            out.append(w)
+            continue
         a = qobj.dyadic(g, (m, m), bits)
         w = a @ a.T + np.eye(m) / 4 if kind == "psd" else (a + a.T) / 2
         out.append(np.array(w, dtype=np.float64))
@@ -207,7 +218,7 @@ def correspondence(ctx):
         ps = qt.calc_prob_dists(true)
         mm = len(ps[0])
         data = make_data(g, ps, 50, zeros=(ci % 2 == 1))
-        wkind = [None, "psd", "sym"][ci % 3]
+        wkind = [None, "psd", "sym", "sparse"][ci % 4]
         Ws = None if wkind is None else sym_weights(g, S, mm, wkind)
         where = ["inside", "outside", "true"][ci % 3]
         x = point(g, qt, true, kind, testers, where)
@@ -405,7 +416,7 @@ def check_conf(ctx, kind, flag, m, salt):
     x = point(g, qt, true, kind, testers, ["inside", "outside"][salt % 2])
     h = qobj.dyadic(g, x.shape, 10, 0.3)
     # --- (1) quadratic losses: exact Taylor identity + defining formula on Born-rule probabilities
-    for wkind in (None, "psd", "sym"):
+    for wkind in (None, "psd", "sym", "sparse"):
         Ws = None if wkind is None else sym_weights(g, S, mm, wkind)
         l = generic_wse(qt, data, Ws)
         v0, v1, gr, H = l.value(x), l.value(x + h), l.gradient(x), l.hessian(x)
@@ -450,6 +461,33 @@ def check_conf(ctx, kind, flag, m, salt):
             lf.set_func_prob_dists_from_standard_qt(qt); lf.set_func_gradient_prob_dists_from_standard_qt(qt)
             if not close(lf.value(xp), v0, 1e-10) or not np.allclose(lf.gradient(xp), gr, rtol=1e-9, atol=1e-12):
                 ctx.violate(f"C12/fast-wre/equal-weights/{tag}", f"fast value {lf.value(xp)} vs generic {v0} (weights {wsel})", rep)
+    # --- (2a) over-normalised points (free parametrisation): some predicted probability exceeds 1, all stay positive
+    if not flag:
+        A_, b_ = qt.calc_matA(), qt.calc_vecB()
+        x0 = np.array(true.to_var(), dtype=np.float64)
+        p0 = A_ @ x0 + b_
+        if np.abs(b_).max() == 0 and p0.min() > 0.02:
+            xo = x0 * (1.3 / p0.max())
+            po = A_ @ xo
+            qflat = np.concatenate(qs)
+            ref = float(np.sum(np.where(qflat > 0, qflat * np.log(np.where(qflat > 0, qflat, 1.0) / po), 0.0)))
+            gref = -(A_.T @ (qflat / po))
+            lg_ = WRE(nv, prob_dists_q=qs); lf_ = FWRE(nv, prob_dists_q=qs)
+            for l_ in (lg_, lf_):
+                l_.set_func_prob_dists_from_standard_qt(qt); l_.set_func_gradient_prob_dists_from_standard_qt(qt)
+            for name, l_ in (("generic", lg_), ("fast", lf_)):
+                if not close(float(l_.value(xo)), ref, 1e-9) or not np.allclose(l_.gradient(xo), gref, rtol=1e-8, atol=1e-10):
+                    ctx.violate(f"C12/{'fast-' if name == 'fast' else ''}wre/over-normalised-point",
+                                f"{tag}: {name} relative entropy at a point with max predicted probability {po.max():.3f}: value "
+                                f"{float(l_.value(xo))} vs Σ q log(q/p) = {ref}", rep)
+    # --- (2a') results must not alias internal state: call, edit the result in place, call again
+    xa = positive_point(g, qt, true)
+    lwre = WRE(nv, prob_dists_q=qs); lfwre = FWRE(nv, prob_dists_q=qs)
+    for l_ in (lwre, lfwre):
+        l_.set_func_prob_dists_from_standard_qt(qt); l_.set_func_gradient_prob_dists_from_standard_qt(qt)
+    lwre.set_func_hessian_prob_dists_from_standard_qt(qt)
+    for name, l_ in (("wse", generic_wse(qt, data, None)), ("fast-wse", fast_wse(qt, data, None)), ("wre", lwre), ("fast-wre", lfwre)):
+        alias_check(ctx, name, l_, xa, rep, hess=(nv <= 16))
     # --- (2b) a SECOND loss object with a different model, evaluated at the bit-identical variable point
     if kind == "qst":
         pv = testers["povms"]
@@ -625,6 +663,25 @@ def check_conf(ctx, kind, flag, m, salt):
                         f"{name} loss reconfigured custom→identity still applies the custom weights: {float(l.value(x))} vs {ref3}", rep)
 
 
+def alias_check(ctx, name, loss, x, rep, hess=True):
+    """value / gradient / Hessian: call, modify the returned array in place, call again — the second result must be unchanged"""
+    for meth in ("value", "gradient", "hessian") if hess else ("value", "gradient"):
+        try:
+            r1 = getattr(loss, meth)(x)
+        except NotImplementedError:
+            continue
+        keep = np.array(r1, dtype=float, copy=True)
+        if isinstance(r1, np.ndarray) and r1.ndim > 0:
+            try:
+                r1 += 5.0
+            except ValueError:
+                pass            # read-only result is fine
+        r2 = np.array(getattr(loss, meth)(x), dtype=float)
+        if r2.shape != keep.shape or not np.allclose(r2, keep, rtol=1e-12, atol=1e-12):
+            ctx.violate(f"C12/{name}/result-aliases-internal-state/{meth}",
+                        f"{meth}() after an in-place edit of the previous result differs by {np.abs(r2 - keep).max():.3e}", rep)
+
+
 def check_simple(ctx, salt):
     g = ctx.npgen(salt)
     for t in range(5):
@@ -635,6 +692,20 @@ def check_simple(ctx, salt):
         ctx.case(("simple", salt, t))
         if abs(v1 - (v0 + gr @ h + 0.5 * h @ H @ h)) > 1e-12 * max(1, abs(v1)) or not close(v0, float(np.sum((x - ref) ** 2)), 1e-12):
             ctx.violate("C12/simple-quadratic/taylor", f"ref={ref.tolist()} x={x.tolist()} h={h.tolist()}", {"kind": "simple", "salt": salt})
+        alias_check(ctx, "simple-quadratic", SimpleQuadraticLossFunction(ref), x, {"kind": "simple", "salt": salt})
+
+
+def guarded(ctx, fn, *args, **kw):
+    """run one oracle group; an unexpected exception raised by the real code is a violation (…/raises), not a crash"""
+    import traceback
+    try:
+        return fn(*args, **kw)
+    except Exception as e:  # noqa
+        frames = [f for f in traceback.extract_tb(e.__traceback__) if "quara" in f.filename.replace("\\", "/").split("/harness/")[-1] and "/harness/" not in f.filename]
+        where = (frames[-1].name if frames else fn.__name__)
+        mod = (frames[-1].filename.split("/")[-1][:-3] if frames else "harness")
+        ctx.violate(f"C12/{mod}.{where}/raises", f"{type(e).__name__}: {e} (inside {fn.__name__}{tuple(a for a in args[1:] if isinstance(a, (str, int, bool)))})",
+                    {"kind": "guarded", "fn": fn.__name__, "args": [a for a in args[1:] if isinstance(a, (str, int, bool, type(None)))], "kw": {k: v for k, v in kw.items() if isinstance(v, (str, int, bool, type(None), list))}})
 
 
 def oracle(ctx, volume=1):
@@ -643,8 +714,8 @@ def oracle(ctx, volume=1):
     for (kind, flag, m) in configs(quick, volume):
         salt += 1
         ctx.count(f"oracle {kind} flag={flag} m={m}")
-        check_conf(ctx, kind, flag, m, salt)
-    check_simple(ctx, 499)
+        guarded(ctx, check_conf, ctx, kind, flag, m, salt)
+    guarded(ctx, check_simple, ctx, 499)
 
 
 def search(ctx):
@@ -655,6 +726,12 @@ def replay(ctx, data):
     r = data["replay"]
     print("replaying", r)
     before = len(ctx.violations)
+    if r.get("kind") == "guarded":
+        fn = globals()[r["fn"]]
+        guarded(ctx, fn, ctx, *r["args"], **r.get("kw", {}))
+        for v in ctx.violations[before:]:
+            print(" ", v["signature"], "-", v["what"])
+        return 1 if len(ctx.violations) > before else 0
     if r["kind"] == "conf":
         check_conf(ctx, r["tomo"], r["flag"], r["m"], r["salt"])
     else:
